@@ -38,6 +38,8 @@ def run(ctx):
     real = []
     for (R, B, C, delay) in ([(5, 2, 2, "0.7:0.9"), (3, 1, 3, "0.3:0.5")] if not ctx.thorough else [(5, 2, 2, "0.7:0.9"), (3, 1, 3, "0.3:0.5"), (4, 1, 2, "0.7:0.2"), (6, 2, 1, "0.7:0.9")]):
         rc, hung, names = real_mp_tier(ctx, R, B, C, None, delay)
+        if hung:      # a hang must reproduce
+            rc, hung, names = real_mp_tier(ctx, R, B, C, None, delay)
         real.append({"R": R, "B": B, "cores": C, "worker_delay:alive_delay": delay, "rc": rc, "hung": hung, "written": names})
         ctx.evaluations += 1
         if hung:
